@@ -36,14 +36,10 @@ from golem.core.tuning.simultaneous import SimultaneousTuner  # noqa: E402
 
 REQ = ['Tuning.Tuner']
 FN = ('fun c => match c with (cfg, sp, tbl, pr, g, o) => '
-      '[agree cfg sp tbl pr g o; holds_b sp g o; proposer_labels_ok sp g pr] end')
-PREAMBLE = '''
-Definition proposer_labels_ok (sp : space) (g : graph) (p : proposer) : bool :=
-  forallb (dict_labels_ok sp g) (p_trials p) &&
-  match p_final p with Some d => dict_labels_ok sp g d | None => true end &&
-  forallb (dict_labels_ok sp g) (p_bests p) &&
-  forallb (fun s => forallb (dict_labels_ok sp g) (st_trials s) && dict_labels_ok sp g (st_best s)) (p_steps p).
-'''
+      '[agree cfg sp tbl pr g o; holds_b sp g o; labels_in_space_b sp (c_kind cfg) g pr; '
+      'proposals_in_range_b sp (c_kind cfg) g pr] end')
+PREAMBLE = ''
+NB = 4
 
 KINDS = ['simultaneous', 'sequential', 'optuna', 'iopt']
 CLS = {'simultaneous': SimultaneousTuner, 'sequential': SequentialTuner, 'optuna': OptunaTuner, 'iopt': IOptTuner}
@@ -615,12 +611,26 @@ def has_tunable(case):
     return any(case['space'].get(n['name']) for n in case['graph'])
 
 
+def iopt_all_trials_invalid(case, run):
+    """IOptTuner, single objective, valid input, every point iOpt evaluated was invalid"""
+    if case['tuner']['kind'] != 'iopt' or case['objective']['multi'] or run['obs']['metric_in'][0] != 'S':
+        return False
+    work = [e for e in run['events'] if e[0] == 'eval'][1:]
+    work = [e for e in work if e[1]]
+    trials = work if run['obs']['raised'] is not None else work[:-1]
+    return bool(trials) and all(e[3][0] == 'I' for e in trials)
+
+
 def finding_key(case, run):
     """known defect classes of the pinned tree (exact input classes ruled by the coordinator)"""
     obs, t, sspec = run['obs'], case['tuner'], case['space']
     kind = t['kind']
     multi_obj = case['objective']['multi']
     init_invalid = obs['metric_in'][0] == 'I'
+    if iopt_all_trials_invalid(case, run):
+        return ('C19.iopt-all-trials-invalid',
+                'IOptTuner: every point iOpt evaluated is invalid, iOpt hands back its shared default solution '
+                '(AttributeError in a fresh process, a stale point of an earlier run otherwise)')
     if obs['raised'] is None:
         return None, None
     if multi_obj and init_invalid:
@@ -670,11 +680,11 @@ def evaluate_cases(ctx, group, cases):
         terms.append(coq_case(case, run))
     if skipped:
         ctx.notes.append('%s: %d case(s) skipped: a metric within binary64 rounding distance of the deviation threshold' % (group, skipped))
-    res = ctx.coq_cases(group, REQ, FN, terms, 3, shard=40, preamble=PREAMBLE) if terms else []
-    for case, run, (ag, ho, hyp) in zip(kept, runs, res):
+    res = ctx.coq_cases(group, REQ, FN, terms, NB, shard=40, preamble=PREAMBLE) if terms else []
+    for case, run, (ag, ho, hyp, rng) in zip(kept, runs, res):
         f = facts(case, run)
         nontrivial = f['tunable'] and not f['raised']
-        ctx.count(group, key=case_key(case), nontrivial=nontrivial, labels_hypothesis=hyp, **f)
+        ctx.count(group, key=case_key(case), nontrivial=nontrivial, labels_hypothesis=hyp, proposals_in_range=rng, **f)
         slim = {k: case[k] for k in ('space', 'graph', 'objective', 'tuner')}
         slim['observed'] = {k: run['obs'][k] for k in ('raised', 'multi', 'init_metric', 'reported', 'metric_in', 'metric_ret')}
         slim['returned_params'] = [[n['params'] for n in g] for g in run['obs']['graphs']]
@@ -703,7 +713,7 @@ def canary(ctx):
         obs['reported'] = ['S', obs['reported'][1] + 1.0]
     bad = coq_case(case, run, obs)
     ctx.canaries += 1
-    res = ctx.coq_cases('canary', REQ, FN, [good, bad], 3, preamble=PREAMBLE)
+    res = ctx.coq_cases('canary', REQ, FN, [good, bad], NB, preamble=PREAMBLE)
     if res[0][:2] == (True, True) and res[1][:2] == (False, False):
         ctx.canaries_caught += 1
 
@@ -732,7 +742,7 @@ def run(ctx):
         ctx.sample({'case': {k: case[k] for k in ('space', 'graph', 'objective', 'tuner')},
                     'observed': {k: run_['obs'][k] for k in ('raised', 'multi', 'init_metric', 'reported', 'metric_in', 'metric_ret')},
                     'agree': r[0], 'holds': r[1]})
-    n = ctx.budget(140, 1400)
+    n = ctx.budget(240, 2400)
     cases = []
     for i in range(n):
         kind = KINDS[i % 4]
